@@ -10611,26 +10611,32 @@ CK_RV SoftHSM::deriveDH
 					}
 				}
 
-				// Get the KCV
+				// Get the KCV: of the key that is stored (the truncated value,
+				// as a key of the type that is being derived)
+				SymmetricKey* derived = NULL;
 				switch (keyType)
 				{
 					case CKK_GENERIC_SECRET:
-						secret->setBitLen(byteLen * 8);
-						plainKCV = secret->getKeyCheckValue();
+						derived = new SymmetricKey();
 						break;
 					case CKK_DES:
 					case CKK_DES2:
 					case CKK_DES3:
-						secret->setBitLen(byteLen * 7);
-						plainKCV = ((DESKey*)secret)->getKeyCheckValue();
+						derived = new DESKey();
 						break;
 					case CKK_AES:
-						secret->setBitLen(byteLen * 8);
-						plainKCV = ((AESKey*)secret)->getKeyCheckValue();
+						derived = new AESKey();
 						break;
 					default:
 						bOK = false;
 						break;
+				}
+				if (derived != NULL)
+				{
+					derived->setKeyBits(secretValue);
+					derived->setBitLen(byteLen * ((keyType == CKK_GENERIC_SECRET || keyType == CKK_AES) ? 8 : 7));
+					plainKCV = derived->getKeyCheckValue();
+					delete derived;
 				}
 
 				if (isPrivate)
@@ -10964,26 +10970,32 @@ CK_RV SoftHSM::deriveECDH
 					}
 				}
 
-				// Get the KCV
+				// Get the KCV: of the key that is stored (the truncated value,
+				// as a key of the type that is being derived)
+				SymmetricKey* derived = NULL;
 				switch (keyType)
 				{
 					case CKK_GENERIC_SECRET:
-						secret->setBitLen(byteLen * 8);
-						plainKCV = secret->getKeyCheckValue();
+						derived = new SymmetricKey();
 						break;
 					case CKK_DES:
 					case CKK_DES2:
 					case CKK_DES3:
-						secret->setBitLen(byteLen * 7);
-						plainKCV = ((DESKey*)secret)->getKeyCheckValue();
+						derived = new DESKey();
 						break;
 					case CKK_AES:
-						secret->setBitLen(byteLen * 8);
-						plainKCV = ((AESKey*)secret)->getKeyCheckValue();
+						derived = new AESKey();
 						break;
 					default:
 						bOK = false;
 						break;
+				}
+				if (derived != NULL)
+				{
+					derived->setKeyBits(secretValue);
+					derived->setBitLen(byteLen * ((keyType == CKK_GENERIC_SECRET || keyType == CKK_AES) ? 8 : 7));
+					plainKCV = derived->getKeyCheckValue();
+					delete derived;
 				}
 
 				if (isPrivate)
@@ -11318,26 +11330,32 @@ CK_RV SoftHSM::deriveEDDSA
 					}
 				}
 
-				// Get the KCV
+				// Get the KCV: of the key that is stored (the truncated value,
+				// as a key of the type that is being derived)
+				SymmetricKey* derived = NULL;
 				switch (keyType)
 				{
 					case CKK_GENERIC_SECRET:
-						secret->setBitLen(byteLen * 8);
-						plainKCV = secret->getKeyCheckValue();
+						derived = new SymmetricKey();
 						break;
 					case CKK_DES:
 					case CKK_DES2:
 					case CKK_DES3:
-						secret->setBitLen(byteLen * 7);
-						plainKCV = ((DESKey*)secret)->getKeyCheckValue();
+						derived = new DESKey();
 						break;
 					case CKK_AES:
-						secret->setBitLen(byteLen * 8);
-						plainKCV = ((AESKey*)secret)->getKeyCheckValue();
+						derived = new AESKey();
 						break;
 					default:
 						bOK = false;
 						break;
+				}
+				if (derived != NULL)
+				{
+					derived->setKeyBits(secretValue);
+					derived->setBitLen(byteLen * ((keyType == CKK_GENERIC_SECRET || keyType == CKK_AES) ? 8 : 7));
+					plainKCV = derived->getKeyCheckValue();
+					delete derived;
 				}
 
 				if (isPrivate)
